@@ -75,7 +75,23 @@ def _redecode_probe(raw: bytes, mask: int):
     core.redecode_after_mutation(SpacePacketHeader.unpack, raw, _fields, _mutate(mask), "SpacePacketHeader.unpack", others)
 
 
+# ---- key "fac" (not read by the model ops): {"name": <factory of props/c11.py FACTORIES>, "p": <its values>} - the factory is
+#      called several times, one result is modified through its public setters / attributes, the other results and a later
+#      call must show what they showed (core.factory_independent). The op line is the carrier; its own result is compared
+#      with the model as always ----
+C01_FACTORIES = ["PacketId.empty()", "PacketId.from_raw(raw)", "PacketSeqCtrl.empty()", "PacketSeqCtrl.from_raw(raw)",
+                 "SpacePacketHeader.from_composite_fields(packet_id, psc, data_length)"]
+
+
+def _factory_probe(a):
+    fac = a.get("fac")
+    if fac:
+        import props.c11 as c11       # the table of factory probes lives with the mutation property
+        c11.op_factory({"factory": fac["name"], "p": fac["p"]})
+
+
 def op_sph_new(a):
+    _factory_probe(a)
     h = _hdr(a)
     f = _fields(h)
     # composite views agree with the flat ones
@@ -120,6 +136,7 @@ def op_pid_raw(a):
 
 
 def op_pid_from_raw(a):
+    _factory_probe(a)
     p = PacketId.from_raw(a["raw"])
     return {"ptype": int(p.ptype), "shf": int(bool(p.sec_header_flag)), "apid": int(p.apid)}
 
@@ -129,6 +146,7 @@ def op_psc_raw(a):
 
 
 def op_psc_from_raw(a):
+    _factory_probe(a)
     p = PacketSeqCtrl.from_raw(a["raw"])
     return {"flags": int(p.seq_flags), "count": int(p.seq_count)}
 
@@ -292,6 +310,20 @@ class C01(Prop):
                 yield Case({"op": "apid_from_raw", "raw": hx(raw)}, "invalid", errclass=True, tag="short")
         for _ in range(2000):
             yield Case({"op": "apid_from_raw", "raw": hx(rbytes(rng, rng.randint(6, 12)))}, "valid", tag="random")
+        # --- results of the factories are objects of their own (key "fac", see _factory_probe) ---
+        import props.c11 as c11
+        for _ in range(40 if thorough else 6):
+            for name in C01_FACTORIES:
+                p = c11.factory_params(rng)
+                fac = {"name": name, "p": p}
+                if name.startswith("PacketId"):
+                    yield Case({"op": "pid_from_raw", "raw": 0 if "empty" in name else p["raw16"] & 0x1FFF, "fac": fac}, "valid",
+                               tag="factory-independence")
+                elif name.startswith("PacketSeqCtrl"):
+                    yield Case({"op": "psc_from_raw", "raw": 0 if "empty" in name else p["raw16"], "fac": fac}, "valid",
+                               tag="factory-independence")
+                else:
+                    yield Case({"op": "sph_new", **rand_hdr(rng), "fac": fac}, "valid", tag="factory-independence")
 
 
 PROP = C01()
